@@ -25,6 +25,7 @@ macro_rules! dispatch {
       "C14" => $f::<props::c14::C14>($($arg),*),
       "C15" => $f::<props::c15::C15>($($arg),*),
       "C16" => $f::<props::c16::C16>($($arg),*),
+      "C17" => $f::<props::c17::C17>($($arg),*),
       "C18" => $f::<props::c18::C18>($($arg),*),
       other => { eprintln!("unknown property {}", other); std::process::exit(3) }
     }
@@ -36,6 +37,7 @@ fn main() {
   if args.len() < 2 { eprintln!("usage: mechcheck run|worker|replay|probe ..."); std::process::exit(3); }
   match args[1].as_str() {
     "probe" => probe(),
+    "fsmprobe" => fsmprobe(),
     "run" => {
       let id = args[2].clone();
       let tier = match arg(&args, "--tier").or_else(|| std::env::var("VERIF_TIER").ok()).as_deref() { Some("thorough") => Tier::Thorough, _ => Tier::Quick };
@@ -83,6 +85,29 @@ fn probe() {
       println!("SRC {:?}\n  => {}   [{}] plan={:?} {:?}", snip, o.show(), match sess.intrp.out.clone() { v => rval::form_of(&v) }, sess.plan_names().iter().rev().take(3).collect::<Vec<_>>(), t.elapsed());
       let snap = sess.snapshot();
       if !snap.is_empty() { println!("  syms: {}", snap.iter().map(|(k, v)| format!("{}={}", k, v.show())).collect::<Vec<_>>().join("; ")); }
+    }
+  }).unwrap();
+  h.join().unwrap();
+}
+
+/// like probe, but with tracing on: prints the fsm trace events
+fn fsmprobe() {
+  use std::io::Read;
+  mech::install_quiet_panic_hook();
+  let mut s = String::new();
+  std::io::stdin().read_to_string(&mut s).unwrap();
+  let h = std::thread::Builder::new().stack_size(1 << 30).spawn(move || {
+    for snip in s.split("\n----\n") {
+      let snip = snip.trim_matches('\n');
+      if snip.is_empty() { continue; }
+      let mut sess = mech::Session::new();
+      sess.intrp.set_trace_enabled(true);
+      sess.intrp.set_trace_to_stdout(false);
+      sess.intrp.max_steps = 50;
+      let t = std::time::Instant::now();
+      let o = sess.run(snip);
+      println!("SRC {:?}\n  => {} {:?}", snip, o.show(), t.elapsed());
+      for e in sess.intrp.trace_events() { if e.channel.as_deref() == Some("fsm") { println!("    [{}] {}", e.label.clone().unwrap_or_default(), e.message.chars().take(150).collect::<String>()); } }
     }
   }).unwrap();
   h.join().unwrap();
